@@ -540,6 +540,13 @@ OPS = {
 
 
 # ------------------------------------------------------------------------------------------------ runner
+TAG_FILTER = None      # list of tag prefixes whose post-conditions are queried (None = all); safety obligations always are
+
+
+def wanted(tag):
+    return TAG_FILTER is None or any(tag.startswith(t) for t in TAG_FILTER)
+
+
 def final_query(events, post, timeout_ms):
     """returns (verdict, model, failing item) ; verdict in unsat/sat/unknown"""
     pref = []
@@ -548,6 +555,10 @@ def final_query(events, post, timeout_ms):
     for e in events:
         if e[0] == 'assume':
             pref.append(e[1])
+        elif e[2] == 'post':
+            if wanted(e[3]):
+                n_obl += 1
+                disj.append((z3.And(pref + [z3.Not(e[1])]), e))
         else:
             n_obl += 1
             if z3.is_false(e[1]):
@@ -556,7 +567,7 @@ def final_query(events, post, timeout_ms):
                 disj.append((z3.And(pref + [z3.Not(e[1])]), e))
             pref.append(e[1])
     for tag, f in post:
-        if z3.is_true(f):
+        if z3.is_true(f) or not wanted(tag):
             continue
         disj.append((z3.And(pref + [z3.Not(f)]), ('post', f, tag)))
     if not disj:
@@ -593,7 +604,7 @@ def run_step(P, kind, opname, N, cube=None, max_expired=None, allow_growth=False
     ucap = None
     if allow_growth:
         ucap = bv(N - 1, 64)       # concrete capacity so that the growth amount is concrete
-    tree = fresh_arena(inst, N, 'pre', ucap=ucap)
+    tree = fresh_arena(inst, N, 'pre', ucap=ucap, ulen=bv(0, 64) if allow_growth else None)
     ctx.tree = tree
     ctx.view = View(inst, tree)
     f, it, w = inv_witness(ctx.view, 'pre')
